@@ -640,6 +640,55 @@ func (w *world) checkNode(t *rapid.T, n *node, after string) {
 			fail("pool entry %s has IsValid=%d, model valid=%v", h.Hex()[:12], u.IsValid, e.Valid)
 		}
 	}
+	// the list of valid pending hashes (what the node announces) is exactly the entries flagged valid
+	vh, err := n.v.GetAllValidUnconfirmedTxHashes()
+	if err != nil {
+		fail("GetAllValidUnconfirmedTxHashes: %v", err)
+	}
+	nValid := 0
+	for _, e := range n.m.Pool {
+		if e.Valid {
+			nValid++
+		}
+	}
+	seenValid := map[cipher.SHA256]bool{}
+	for _, h := range vh {
+		e, ok := n.m.Pool[h]
+		if !ok || !e.Valid || seenValid[h] {
+			fail("GetAllValidUnconfirmedTxHashes lists %s (in model pool=%v, listed twice=%v)", h.Hex()[:12], ok, seenValid[h])
+		}
+		seenValid[h] = true
+	}
+	if len(vh) != nValid {
+		fail("GetAllValidUnconfirmedTxHashes lists %d hashes, the model has %d valid pool entries", len(vh), nValid)
+	}
+	// outputs by id: every unspent output is found under its own id, a spent and an unknown id are not
+	{
+		ids := make([]cipher.SHA256, 0, len(want))
+		for _, ux := range want {
+			ids = append(ids, txref.UxBodyID(ux.Body))
+		}
+		if len(ids) > 0 {
+			byID, err := n.v.GetUnspentOutputs(ids)
+			if err != nil || len(byID) != len(ids) {
+				fail("GetUnspentOutputs(%d ids of the unspent set) returned %d outputs, err=%v", len(ids), len(byID), err)
+			}
+			for i := range byID {
+				if byID[i] != want[i] {
+					fail("GetUnspentOutputs: output %d is %+v, asked for %+v", i, byID[i], want[i])
+				}
+			}
+		}
+		for id := range n.m.Spent {
+			if _, err := n.v.GetUnspentOutputs([]cipher.SHA256{id}); err == nil {
+				fail("GetUnspentOutputs finds the spent output %s", id.Hex()[:12])
+			}
+			break
+		}
+		if _, err := n.v.GetUnspentOutputs([]cipher.SHA256{cipher.SumSHA256([]byte("no such output"))}); err == nil {
+			fail("GetUnspentOutputs finds an output that never existed")
+		}
+	}
 }
 
 func (w *world) checkAll(t *rapid.T, after string) {
